@@ -587,20 +587,35 @@ func (fx *FuncExec) Merge(ins []incoming, what string) *State {
 			}
 		}
 	}
-	// defers: the common prefix is unconditional; what only some incoming paths registered is kept
-	// with the condition of that path (run conditionally at RunDefers)
-	common := len(ins[0].st.defers)
-	for _, in := range ins[1:] {
-		k := 0
-		for k < common && k < len(in.st.defers) && in.st.defers[k] == ins[0].st.defers[k] {
-			k++
+	// defers: one entry per defer statement; its condition is the disjunction over the incoming paths
+	// that registered it ("true" if every path did, unconditionally)
+	{
+		var order []*ssa.Defer
+		conds := map[*ssa.Defer][]string{}
+		uncond := map[*ssa.Defer]int{}
+		for _, in := range ins {
+			seen := map[*ssa.Defer]bool{}
+			for _, d := range in.st.defers {
+				if seen[d.d] {
+					continue // the same statement registered twice on one path (loops) is run once: a limitation
+				}
+				seen[d.d] = true
+				if _, ok := conds[d.d]; !ok {
+					order = append(order, d.d)
+				}
+				conds[d.d] = append(conds[d.d], and(in.cond, d.cond))
+				if d.cond == "true" {
+					uncond[d.d]++
+				}
+			}
 		}
-		common = k
-	}
-	n.defers = append([]deferRec(nil), ins[0].st.defers[:common]...)
-	for _, in := range ins {
-		for _, d := range in.st.defers[common:] {
-			n.defers = append(n.defers, deferRec{d: d.d, cond: and(in.cond, d.cond)})
+		n.defers = nil
+		for _, d := range order {
+			if uncond[d] == len(ins) {
+				n.defers = append(n.defers, deferRec{d: d, cond: "true"})
+			} else {
+				n.defers = append(n.defers, deferRec{d: d, cond: fx.em.Define("deferred", SBool, or(conds[d]...))})
+			}
 		}
 	}
 	for _, in := range ins {
